@@ -25,6 +25,10 @@ type Scenario struct {
 	// RefExec: the node runs the REAL reference execution layer (apps/testapp KVExecutor), whose database
 	// dies with the process; crash points then include the executor's own durable writes.
 	RefExec bool `json:"ref_exec,omitempty"`
+	// HLoss / DLoss: at every crash the header / data P2P store loses its newest HLoss / DLoss items (the real
+	// stores write to disk in the background, each on its own).
+	HLoss int `json:"h_loss,omitempty"`
+	DLoss int `json:"d_loss,omitempty"`
 }
 
 func kvify(st pw.Step) pw.Step {
@@ -84,6 +88,10 @@ func genScenario(t *rapid.T) Scenario {
 		sc.After = append(sc.After, genGood(t, "a"))
 	}
 	sc.Depth3 = rapid.IntRange(0, 7).Draw(t, "depth3")
+	if rapid.IntRange(0, 2).Draw(t, "p2ploss") == 0 {
+		sc.HLoss = rapid.IntRange(0, 3).Draw(t, "hloss")
+		sc.DLoss = rapid.IntRange(0, 3).Draw(t, "dloss")
+	}
 	return sc
 }
 
@@ -256,6 +264,8 @@ func runOnce(sc Scenario, crashes []int, dir string, io ...int) outcome {
 				out.crashAt = "end-of-step"
 			}
 			img := p.Raw.Image()
+			p.N.HStore.Rewind(sc.HLoss)
+			p.N.DStore.Rewind(sc.DLoss)
 			// what was durable at the moment of death is pinned too
 			if err := p.RestartOn(world.FromImage(img)); err != nil {
 				out.v = world.Fail("C04/restart-fails/crash-before:"+out.crashAt, "node cannot start on the image left by a crash before op %s: %v", out.crashAt, err)
